@@ -31,6 +31,12 @@ const SCRIPT_TIME_LIMIT: Duration = Duration::from_secs(5);
 /// Deepest nesting of tables in a script's return value
 const LUA_REPLY_MAX_DEPTH: usize = 128;
 
+/// Upper bound on the number of table elements one script reply may expand to. The conversion
+/// runs after the script has finished (outside the time limit) and follows `__index`, and a small
+/// table can reference the same child many times, so neither the script's run time nor the Lua
+/// memory limit bounds the size of the reply that is built from it.
+const LUA_REPLY_MAX_ELEMENTS: usize = 1_000_000;
+
 /// Most memory one script's Lua state may allocate
 const SCRIPT_MEMORY_LIMIT: usize = 512 * 1024 * 1024;
 
@@ -387,12 +393,19 @@ impl LuaEngine {
     }
     
     fn lua_value_to_resp(&self, value: LuaValue) -> RespFrame {
-        self.lua_value_to_resp_nested(value, 0)
+        let mut budget = LUA_REPLY_MAX_ELEMENTS;
+        let frame = self.lua_value_to_resp_nested(value, 0, &mut budget);
+        if budget == 0 {
+            return RespFrame::error("ERR script reply has too many elements");
+        }
+        frame
     }
     
     /// Conversion of a (possibly nested) Lua value; `depth` bounds the nesting, since a script can
     /// return a table that contains itself
-    fn lua_value_to_resp_nested(&self, value: LuaValue, depth: usize) -> RespFrame {
+    /// `budget` is the number of table elements the whole reply may still take; at zero every
+    /// level stops converting and the caller answers an error instead of the partial reply
+    fn lua_value_to_resp_nested(&self, value: LuaValue, depth: usize, budget: &mut usize) -> RespFrame {
         if depth > LUA_REPLY_MAX_DEPTH {
             return RespFrame::error("ERR reached lua stack limit");
         }
@@ -418,9 +431,15 @@ impl LuaEngine {
                 // Convert Lua table to Redis array
                 let mut items = Vec::new();
                 for i in 1.. {
+                    if *budget == 0 {
+                        break;
+                    }
                     match table.get::<LuaValue>(i) {
                         Ok(LuaValue::Nil) => break,
-                        Ok(value) => items.push(self.lua_value_to_resp_nested(value, depth + 1)),
+                        Ok(value) => {
+                            *budget -= 1;
+                            items.push(self.lua_value_to_resp_nested(value, depth + 1, budget));
+                        }
                         Err(_) => break,
                     }
                 }
